@@ -81,6 +81,12 @@ def valid_case(row, seed):
         idblob.SHARED = mp.Value("q", 0)
         np.random.seed(seed)
         kw, t, like, pt = build_kwargs(row, tmp)
+        sm_prev = None
+        if row.get("startmethod"):
+            # integer pools under the other process start methods (the default on macOS / Windows, and on Linux from Python 3.14)
+            import multiprocess
+            sm_prev = multiprocess.get_start_method(allow_none=True)
+            multiprocess.set_start_method(row["startmethod"], force=True)
         try:
             s = Sampler(**kw)
         except Exception as e:
@@ -121,10 +127,16 @@ def valid_case(row, seed):
             out["bad"].append(("post-posterior", "posterior() returned non-finite values or unnormalised weights"))
         calls = int(s.state.get_current("calls"))
         seen = int(idblob.SHARED.value)
-        if calls != seen:
+        if calls != seen and not row.get("startmethod"):      # (spawned workers do not inherit the harness's shared counter)
             out["bad"].append(("calls-miscounted", f"calls={calls} but the likelihood saw {seen} points"))
         return out
     finally:
+        if row.get("startmethod"):
+            try:
+                import multiprocess
+                multiprocess.set_start_method(sm_prev or "fork", force=True)
+            except Exception:
+                pass
         shutil.rmtree(tmp, ignore_errors=True)
 
 
@@ -172,6 +184,12 @@ def run():
         for extra in range(3):       # three more independently generated 3-wise arrays
             rows += cover.covering(FACTORS, 3, ck.rng("lattice", extra), valid=valid, candidates=25)
     tasks = [("tvf.checks.c18:valid_case", dict(row=r, seed=ck.subseed("row", i) % 2 ** 31), None) for i, r in enumerate(rows)]
+    # integer pools under the spawn / forkserver process start methods
+    base = dict(kernel="tpcn", resample="mult", clustering=False, normalize=True, cluster_every=1, n_max_clusters=None, split_threshold=1.0, metric="ess2", steps="n1",
+                mode="scalar", bc="none", bctype="list", pool="int2", save_every=None, outfs="same", n_dim=2, n_particles=16)
+    for j, smeth in enumerate(ck.pick(["spawn", "forkserver"], ["spawn", "forkserver", "spawn", "forkserver"])):
+        tasks.append(("tvf.checks.c18:valid_case", dict(row=dict(base, startmethod=smeth, mode=["scalar", "blobs"][j % 2], kernel=["tpcn", "rwm"][(j // 2) % 2]),
+                                                         seed=ck.subseed("startmethod", j) % 2 ** 31), None))
     for i, st, val in farm.run(tasks, timeout=600, jobs=12, progress="C18-valid"):
         row = tasks[i][1]["row"]
         if st == "timeout":
@@ -182,6 +200,8 @@ def run():
             continue
         ck.case(dict(row=row), nontrivial=val["iters"] > 0)
         ck.event("valid configurations run to completion" if not val["bad"] else "valid configurations with a violation")
+        if row.get("startmethod"):
+            ck.event("valid configurations with an integer pool under the spawn / forkserver start method")
         if val.get("other_fs") and row.get("save_every"):
             ck.event("valid configurations with checkpoints written to a directory on another filesystem than the temp directory")
         for key, what in val["bad"]:
